@@ -2,7 +2,7 @@
     translator reads from the source on every run (harness/cmd/consts/c16.go, item emitC16Order).
     If the code changes shape, this file stops compiling and the check reports it. *)
 From Coq Require Import ZArith.
-From CM Require Import Lib.Str Gen.Consts Solvers.Model.
+From CM Require Import Lib.Str Gen.Consts Solvers.Model Solvers.Config.
 
 (** [sstep]: solverWrapper writes / deletes the memory entry and then calls the wrapped solver;
     distributedSolver stores / deletes the token and then calls the embedded solver, both calls
@@ -25,3 +25,8 @@ Proof. repeat split; reflexivity. Qed.
 Example tie_dns :
   c16_dns_present_order = [0; 1]%nat /\ c16_dns_cleanup_order = [0; 1; 2]%nat /\ c16_dns_cleanup_fresh_ctx = true.
 Proof. repeat split; reflexivity. Qed.
+
+(** [pick_port]: getHTTPPort / getTLSALPNPort have the shape  base; package port if > 0 and different;
+    alternate port if > 0  ([http_port] / [alpn_port] use the translated base ports) *)
+Example tie_ports : c16_http_port_shape = true /\ c16_tlsalpn_port_shape = true.
+Proof. split; reflexivity. Qed.
